@@ -206,6 +206,10 @@ Definition f_put (e : env) (sz fb off : Z) (v : Z -> Z) : M unit :=
   p <~ lift (add32 (e_m e) fb off) ;; a_put e sz p v.
 Definition f_overlay_struct (e : env) (sz fb off : Z) : M Z :=
   p <~ lift (add32 (e_m e) fb off) ;; a_overlay_struct e sz p.
+(* what the concrete flyweights do: Flyweight::new(buffer, fb), then read the field [foff, foff+flen) of *m_struct
+   through the raw pointer (no further check) *)
+Definition f_field (e : env) (sz fb foff flen : Z) : M (list Z) :=
+  _ <~ f_new e sz fb ;; rd e (fb + foff) flen.
 
 (* ------------------------------------------------------------------ calls as data *)
 (* what is written: byte k of every written value / slice *)
@@ -229,7 +233,8 @@ Inductive call :=
 | CPutString (off n : Z) | CPutStringWl (off n : Z)
 (* through a Flyweight with base_offset fb *)
 | FNew (sz fb : Z) | FStringGet (fb off : Z) | FStringGetLength (fb off : Z) | FStringPut (fb off n : Z)
-| FPutBytes (fb off n : Z) | FGetBytes (sz fb off : Z) | FPut (sz fb off : Z) | FOverlay (sz fb off : Z).
+| FPutBytes (fb off n : Z) | FGetBytes (sz fb off : Z) | FPut (sz fb off : Z) | FOverlay (sz fb off : Z)
+| FField (sz fb foff flen : Z).
 
 (* result of a call as the harness prints it: (numbers, bytes) *)
 Definition rv := (list Z * list Z)%type.
@@ -271,6 +276,7 @@ Fixpoint run (e : env) (c : call) : M rv :=
   | FGetBytes sz fb off => as_bytes (f_get_bytes e sz fb off)
   | FPut sz fb off => as_unit (f_put e sz fb off wbyte)
   | FOverlay sz fb off => as_num (f_overlay_struct e sz fb off)
+  | FField sz fb foff flen => as_bytes (f_field e sz fb foff flen)
   end.
 
 (* ------------------------------------------------------------------ the test fixture (shared with the harness) *)
